@@ -51,11 +51,11 @@ const hmacSecret = "shared-secret-value"
 
 type world struct {
 	Signer, Hmac, Skip bool
-	pw                          *c.ProxyWorld
-	srv                         *httptest.Server
-	backend                     *c.Backend
-	certs                       map[string]string
-	hm                          hmacauth.HmacAuth
+	pw                 *c.ProxyWorld
+	srv                *httptest.Server
+	backend            *c.Backend
+	certs              map[string]string
+	hm                 hmacauth.HmacAuth
 }
 
 func genKeyPEM() string {
@@ -91,7 +91,7 @@ func newWorld(dir string, auth *c.FakeAuth, keyPEM string, signer, hm, skip bool
 	w.srv = httptest.NewServer(pw.Handler)
 	w.hm = hmacauth.NewHmacAuth(crypto.SHA256, []byte(hmacSecret), proxy.HMACSignatureHeader, proxy.SignatureHeaders)
 	// published keys
-	st, _, body := w.roundTrip([]byte("GET /oauth2/v1/certs HTTP/1.1\r\nHost: " + fromHost + "\r\nConnection: close\r\n\r\n"), "GET")
+	st, _, body := w.roundTrip([]byte("GET /oauth2/v1/certs HTTP/1.1\r\nHost: "+fromHost+"\r\nConnection: close\r\n\r\n"), "GET")
 	w.certs = map[string]string{}
 	if st == 200 && len(bytes.TrimSpace(body)) > 0 {
 		c.Must(json.Unmarshal(body, &w.certs))
@@ -127,7 +127,7 @@ type hdr struct{ K, V string }
 type spec struct {
 	Method  string
 	Target  string
-	Headers []hdr  // client header lines in order (not Host / Cookie / Content-Length / Transfer-Encoding)
+	Headers []hdr    // client header lines in order (not Host / Cookie / Content-Length / Transfer-Encoding)
 	Cookies []string // Cookie header lines; the token "@S" is replaced by name=<sealed session>
 	Body    []byte
 	Mode    string // "none" (no body, no length), "sized", "chunked"
@@ -236,7 +236,7 @@ func sortedHeaders(h http.Header, sub func(string) string) string {
 		for j, v := range h[k] {
 			vs[j] = sub(v)
 		}
-		parts[i] = c.Pair(c.Str(k), c.Strs(vs))
+		parts[i] = c.Pair(str(k), strs(vs))
 	}
 	return c.List(parts)
 }
@@ -268,30 +268,48 @@ func short(b []byte) string {
 
 func optBool(b *bool) string { return c.OptBool(b) }
 
-// str renders bytes as a Gallina [str]. Long strings become [bcat] of short chunks of Init.Byte
-// constructors (x00 .. xff): a cons literal tens of thousands deep overflows coqc's stack, and a
-// constructor name costs coqc a fraction of what a numeral does.
+// str renders bytes as a Gallina [str], packed seven bytes per primitive 63-bit integer
+// (little-endian; Corr_C12.pk / pkc unpack them): coqc parses a primitive integer literal an
+// order of magnitude faster than numerals of type N, and list literals are kept short.
 func str(s string) string {
-	const chunk = 128
-	if len(s) <= 2*chunk {
-		return c.Str(s)
+	if s == "" {
+		return "[]"
 	}
-	var sb strings.Builder
-	sb.WriteString("(bcat [")
-	for i := 0; i < len(s); i++ {
-		if i > 0 {
-			if i%chunk == 0 {
-				sb.WriteString("];\n[")
-			} else {
-				sb.WriteString(";")
-			}
-		} else {
-			sb.WriteString("[")
+	var ints []string
+	rem := 7
+	for i := 0; i < len(s); i += 7 {
+		end := i + 7
+		if end > len(s) {
+			end = len(s)
+			rem = end - i
 		}
-		fmt.Fprintf(&sb, "x%02x", s[i])
+		var v uint64
+		for j := end - 1; j >= i; j-- {
+			v = v<<8 | uint64(s[j])
+		}
+		ints = append(ints, strconv.FormatUint(v, 10))
 	}
-	sb.WriteString("]])")
-	return sb.String()
+	const chunk = 64
+	if len(ints) <= chunk {
+		return fmt.Sprintf("(pk %d [%s]%%uint63)", rem, strings.Join(ints, ";"))
+	}
+	var chunks []string
+	for i := 0; i < len(ints); i += chunk {
+		end := i + chunk
+		if end > len(ints) {
+			end = len(ints)
+		}
+		chunks = append(chunks, "["+strings.Join(ints[i:end], ";")+"]")
+	}
+	return fmt.Sprintf("(pkc %d [%s]%%uint63)", rem, strings.Join(chunks, ";\n"))
+}
+
+func strs(l []string) string {
+	parts := make([]string, len(l))
+	for i, s := range l {
+		parts[i] = str(s)
+	}
+	return c.List(parts)
 }
 
 // run executes one spec against one world and produces a case.
@@ -304,10 +322,10 @@ func (w *world) run(s *spec) c.Case {
 		signer = "(Some 1)"
 	}
 	if w.Hmac {
-		hm = "(Some " + c.Str(hmacSecret) + ")"
+		hm = "(Some " + str(hmacSecret) + ")"
 	}
 	cfg := fmt.Sprintf("{| c_signer := %s; c_hmac := %s; c_skip := %s; c_pass_token := false; c_cookie_name := %s; c_preserve_host := false; c_thost := %s; c_tpath := []; c_tquery := [] |}",
-		signer, hm, c.Bool(w.Skip), c.Str(w.pw.CookieName), c.Str(w.backend.HostPort()))
+		signer, hm, c.Bool(w.Skip), str(w.pw.CookieName), str(w.backend.HostPort()))
 	js := map[string]interface{}{
 		"world": map[string]bool{"signer": w.Signer, "hmac": w.Hmac, "skip_request_signing": w.Skip},
 		"note":  s.Note, "method": s.Method, "target": s.Target, "client_headers": s.Headers, "cookie_lines": len(s.Cookies),
@@ -342,15 +360,15 @@ func (w *world) run(s *spec) c.Case {
 	chunked := len(in.TransferEncoding) > 0 && in.TransferEncoding[0] == "chunked"
 	var cookies []string
 	for _, ck := range in.Cookies() {
-		cookies = append(cookies, c.Pair(c.Str(ck.Name), c.Str(sub(ck.String()))))
+		cookies = append(cookies, c.Pair(str(ck.Name), str(sub(ck.String()))))
 	}
 	ident := "None"
 	if s.Ident {
 		ident = fmt.Sprintf("(Some {| i_user := %s; i_email := %s; i_groups := %s; i_token := %s |})",
-			c.Str(s.User), c.Str(s.Email), c.Strs(s.Groups), c.Str(s.Token))
+			str(s.User), str(s.Email), strs(s.Groups), str(s.Token))
 	}
 	incoming := fmt.Sprintf("{| r_method := %s; r_host := %s; r_headers := %s; r_path := %s; r_rawquery := %s; r_fragment := %s; r_body := Some %s; r_chunked := %s; r_sso_sig := None; r_kid := None; r_gap_sig := None |}",
-		c.Str(in.Method), c.Str(in.Host), sortedHeaders(in.Header, sub), c.Str(in.URL.Path), c.Str(in.URL.RawQuery), c.Str(in.URL.Fragment),
+		str(in.Method), str(in.Host), sortedHeaders(in.Header, sub), str(in.URL.Path), str(in.URL.RawQuery), str(in.URL.Fragment),
 		bodyLit(inBody), c.Bool(chunked))
 
 	// ---- what the upstream received
@@ -389,7 +407,7 @@ func (w *world) run(s *spec) c.Case {
 		rsaLit = "(" + str(sub(strings.TrimSuffix(implRSA, string(s.Body)))) + " ++ b)"
 	}
 	recv := fmt.Sprintf("{| o_method := %s; o_headers := %s; o_path := %s; o_rawquery := %s; o_body := %s |}",
-		c.Str(got.Method), sortedHeaders(abbreviate(got.Header, pubKid), sub), c.Str(gu.Path), c.Str(gu.RawQuery), bodyLit(got.Body))
+		str(got.Method), sortedHeaders(abbreviate(got.Header, pubKid), sub), str(gu.Path), str(gu.RawQuery), bodyLit(got.Body))
 	js["forwarded"] = true
 	js["received"] = map[string]interface{}{"method": got.Method, "uri": got.URI, "headers": headerJSON(got.Header), "body": short(got.Body)}
 	js["rsa_verifies"] = vRSA
@@ -397,7 +415,7 @@ func (w *world) run(s *spec) c.Case {
 	js["hmac_result"] = int(res)
 	js["body_intact"] = bytes.Equal(got.Body, s.Body)
 	coq := fmt.Sprintf("CFwd %s %s %s %s %s %s %s %s %s %s %s",
-		cfg, ident, incoming, c.List(cookies), bodyLit(s.Body), recv, rsaLit, c.Str(sub(implHMAC)),
+		cfg, ident, incoming, c.List(cookies), bodyLit(s.Body), recv, rsaLit, str(sub(implHMAC)),
 		optBool(vRSA), c.Bool(kidOK), c.N(int(res)))
 	if long {
 		// a long body is written once and named; every place whose bytes equal it refers to the name
